@@ -38,6 +38,24 @@ class Der:
 
 
 @dataclass
+class Grp:
+    """a parenthesised join group used as a FROM item: ( a JOIN b ON .. ); its members belong to the enclosing scope"""
+    frm: list
+    alias: Optional[str] = None
+
+
+def flat(frm):
+    """the relations of a FROM list in order, parenthesised groups flattened (Col.rel indexes into this list)"""
+    out = []
+    for j in frm:
+        if isinstance(j.item, Grp):
+            out += flat(j.item.frm)
+        else:
+            out.append(j)
+    return out
+
+
+@dataclass
 class J:
     kind: str          # 'first' | ',' | 'JOIN' | 'LEFT JOIN' | 'INNER JOIN' | 'CROSS JOIN' | 'FULL OUTER JOIN' | 'RIGHT JOIN'
     item: object       # Tab | Der
@@ -172,7 +190,10 @@ class Renderer:
         out = []
         for i, j in enumerate(frm):
             it = j.item
-            txt = self.tab(it) if isinstance(it, Tab) else ("(" + self.query(it.q) + ")" + ((" AS " if it.as_kw else " ") + self.n(it.alias) if it.alias else ""))
+            if isinstance(it, Grp):
+                txt = "(" + self.from_(it.frm, scope) + ")"
+            else:
+                txt = self.tab(it) if isinstance(it, Tab) else ("(" + self.query(it.q) + ")" + ((" AS " if it.as_kw else " ") + self.n(it.alias) if it.alias else ""))
             if j.kind == "first":
                 out.append(txt)
             elif j.kind == ",":
@@ -180,7 +201,7 @@ class Renderer:
             else:
                 c = ""
                 if j.cond == "on":
-                    a, b = self.exposed(frm[0].item) or "x", self.exposed(it) or "y"
+                    a, b = self.exposed(flat(frm)[0].item) or "x", self.exposed(flat([j])[0].item) or "y"
                     c = " ON %s.id = %s.id" % (a, b)
                 elif j.cond == "using":
                     c = " USING (id)"
@@ -191,12 +212,12 @@ class Renderer:
         if isinstance(e, Col):
             if e.rel is None:
                 return self.n(e.name)
-            it = frm[e.rel].item
+            it = flat(frm)[e.rel].item
             if e.full and isinstance(it, Tab) and not it.alias:
                 return (self.n(it.schema) + "." if it.schema else "") + self.n(it.name) + "." + self.n(e.name)
             return self.exposed(it) + "." + self.n(e.name)
         if isinstance(e, Star):
-            return "*" if e.rel is None else self.exposed(frm[e.rel].item) + ".*"
+            return "*" if e.rel is None else self.exposed(flat(frm)[e.rel].item) + ".*"
         if isinstance(e, Func):
             return "%s(%s)" % (e.fname, ", ".join(self.expr(a, frm) for a in e.args))
         if isinstance(e, Case):
@@ -297,7 +318,7 @@ class Renderer:
 
 def _unqualified_tables(q):
     if isinstance(q, Sel):
-        for j in q.frm:
+        for j in flat(q.frm):
             if isinstance(j.item, Tab):
                 if j.item.schema is None:
                     yield j.item
@@ -400,10 +421,10 @@ class Oracle:
         return ("table", tid)
 
     def sel(self, s: Sel, ctes):
-        rels = [self.relation(j.item, ctes) for j in s.frm]
+        rels = [self.relation(j.item, ctes) for j in flat(s.frm)]
         # exposed names in one FROM scope are pairwise distinct (SQL validity)
         exp = []
-        for j in s.frm:
+        for j in flat(s.frm):
             it = j.item
             nm = self.v(it.alias) if it.alias else (self.v(it.name) if isinstance(it, Tab) else None)
             if nm is not None:
